@@ -198,6 +198,8 @@ class LibMixin:
         # analyses depend on ends in an analysis limit there, never in a silent verdict.
         if n == "textwrap" and attr in ("dedent", "indent"):
             return F(f"textwrap.{attr}")
+        if n == "json" and attr in ("dumps", "loads"):
+            return F(f"json.{attr}")
         if n == "sys" and attr == "float_info":
             import sys as _sys
             return InstV(L("sys.float_info"), {"max": _sys.float_info.max, "min": _sys.float_info.min, "epsilon": _sys.float_info.epsilon,
@@ -462,6 +464,9 @@ class LibMixin:
             # (a native TypeError on an abstract value is an analysis artefact, not behaviour)
             return self.sym_call_libclass(c, args, kwargs, run, node)
         if n in ("int", "str", "float", "bool", "bytes"):
+            if n == "str" and len(args) == 1 and isinstance(args[0], InstV) and isinstance(args[0].attrs.get("_base_value_"), str) and \
+                    isinstance(args[0].cls, ClassV) and not any(self.class_lookup(args[0].cls, m) is not None for m in ("__str__", "__repr__")):
+                return args[0].attrs["_base_value_"]  # str() of an instance of a plain str subclass
             if n == "str" and len(args) == 1 and not isinstance(args[0], (str, int, float, bytes)) and args[0] is not None:
                 return Sym(("str", term_of(args[0])), "str")
             if n == "int" and len(args) == 1 and isinstance(args[0], EnumMemberV):
@@ -550,7 +555,15 @@ class LibMixin:
                   "struct.calcsize": _struct.calcsize, "format": format,
                   "datetime.datetime.fromtimestamp": _dt.datetime.fromtimestamp,
                   "datetime.datetime.fromisoformat": _dt.datetime.fromisoformat,
+                  "json.dumps": __import__("json").dumps, "json.loads": __import__("json").loads,
                   "int.from_bytes": int.from_bytes, "str.isidentifier": str.isidentifier, "bytes.fromhex": bytes.fromhex}
+        if name == "struct.Struct" and len(args) == 1 and isinstance(args[0], str):
+            try:
+                return InstV(LibClass.get("struct.Struct"), {"format": args[0], "size": _struct.calcsize(args[0])})
+            except _struct.error as e:
+                self.throw("struct.error", str(e), node)
+        if name in ("struct.Struct.pack", "struct.Struct.unpack") and args and isinstance(args[0], InstV):
+            return self.call_lib("struct." + name.rsplit(".", 1)[1], [args[0].attrs["format"]] + list(args[1:]), kwargs, run, node)
         if name == "itertools.count" and len(args) <= 2 and not kwargs:
             start = args[0] if args else 0
             step = args[1] if len(args) > 1 else 1
@@ -980,6 +993,11 @@ class LibMixin:
             return tuple(o.args)
         if isinstance(o, InstV) and "_int_" in o.attrs:
             return self.lib_value_attr(o.attrs["_int_"], name, run, node)
+        if isinstance(o, InstV) and isinstance(o.cls, LibClass) and o.cls.name == "struct.Struct":
+            if name in ("pack", "unpack"):
+                return BoundV(F("struct.Struct." + name), o)
+            if name in o.attrs:
+                return o.attrs[name]
         if isinstance(o, NATIVE_TYPES) or isinstance(o, (int, float, str, bytes, tuple, frozenset, range)) and not isinstance(o, Obj):
             if isinstance(o, tuple) and not is_concrete(o):
                 if name in ("index", "count"):
